@@ -453,7 +453,8 @@ def process_tpmu(tpm_type, path, selector, size_constraints=None, abort_on_error
 
     field = next(f for f in fields(tpm_type) if f.name == selectee_name)
     if field.type is None:
-        return 0, None
+        # member without payload: the (empty) union itself is the value, as events_to_obj() builds it
+        return 0, tpm_type()
     if is_list(field.type):
         # union member of list type (must be statically sized as indicated in _list_size)
         assert hasattr(tpm_type, "_list_size")
